@@ -48,9 +48,11 @@ type Rename struct {
 }
 
 type Rewrite struct {
-	File string `json:"file"`
-	Old  string `json:"old"`
-	New  string `json:"new"`
+	File     string `json:"file"`
+	Old      string `json:"old"`
+	New      string `json:"new"`
+	All      bool   `json:"all"`      // replace every occurrence (at least one required unless optional)
+	Optional bool   `json:"optional"` // a missing text is not an error (performance-only rewrites)
 }
 
 type Oblig struct {
@@ -301,7 +303,22 @@ func buildOverlay(o *Oblig, withReplayTest bool) (map[string][]byte, string) {
 		}
 		ov[p] = out
 	}
+	// identical rewrites listed k times mean "every occurrence" (robust against a tree that has
+	// fewer or more occurrences than when the harness was written)
+	seenRw := map[string]int{}
 	for _, rw := range o.Rewrites {
+		seenRw[rw.File+"\x00"+rw.Old+"\x00"+rw.New]++
+	}
+	doneRw := map[string]bool{}
+	for _, rw := range o.Rewrites {
+		key := rw.File + "\x00" + rw.Old + "\x00" + rw.New
+		if doneRw[key] {
+			continue
+		}
+		all := rw.All || seenRw[key] > 1
+		if all {
+			doneRw[key] = true
+		}
 		p := rw.File
 		if !filepath.IsAbs(p) {
 			p = filepath.Join(repoDir, p)
@@ -315,9 +332,16 @@ func buildOverlay(o *Oblig, withReplayTest bool) (map[string][]byte, string) {
 			}
 		}
 		if !bytes.Contains(src, []byte(rw.Old)) {
+			if rw.Optional {
+				continue
+			}
 			fatal("rewrite: text %q not found in %s (harness out of date with the tree)", rw.Old, p)
 		}
-		ov[p] = bytes.Replace(src, []byte(rw.Old), []byte(rw.New), 1)
+		if all {
+			ov[p] = bytes.ReplaceAll(src, []byte(rw.Old), []byte(rw.New))
+		} else {
+			ov[p] = bytes.Replace(src, []byte(rw.Old), []byte(rw.New), 1)
+		}
 	}
 	return ov, pkgName
 }
